@@ -20,7 +20,11 @@ RULE = (
     "from {0,1,2,3}; MOV 0->k and k->0; rotations 3 axes x n 0..255 x d (quick: d<=5 complete + Hypothesis-drawn (n,d); "
     "thorough: all 256x256) in simulation mode and d 0..4 in hardware mode; published to_matrix()/to_matrix_target_only() of "
     "every vanilla and NV instruction class; Hypothesis-drawn straight-line sequences of 2..6 gates over 2..4 qubits and six Q "
-    "registers (whole-circuit unitary).  Every case is non-trivial; distinct by (gate, placement, n, d, mode) / sequence"
+    "registers (whole-circuit unitary), a third of them with gate objects that are instances of subclasses of the vanilla classes; "
+    "the enumerated gates x placements again with the gate object an instance of a plain / annotated-dataclass / grandchild subclass; "
+    "a second transpilation of an equal input after the caller edited the first result in place; Hypothesis-drawn histories of "
+    "published-matrix queries where the caller edits each returned array in place (8 kinds of edit) and asks again (same object, "
+    "equal object, all other classes).  Every case is non-trivial; distinct by (gate, placement, n, d, mode) / sequence / history"
 )
 ASSUMPTIONS = [
     "R_a(t)=exp(-i t sigma_a/2); crot_a(t)=|0><0|(x)R_a(t)+|1><1|(x)R_a(-t), first operand control, axis from the mnemonic",
@@ -37,7 +41,39 @@ def transpile(instrs, debug=False):
     from netqasm.sdk.transpile import NVSubroutineTranspiler
 
     sub = Subroutine(instructions=list(instrs), app_id=0)
-    return NVSubroutineTranspiler(sub, debug=debug).transpile().instructions
+    out = NVSubroutineTranspiler(sub, debug=debug).transpile().instructions
+    _LAST_OUT[:] = [out]
+    return out
+
+
+_LAST_OUT: List[Any] = []
+
+# ------------------------------------------------------------------ instances of subclasses of the vanilla gate classes
+
+SUBCLASS_VARIANTS = ("plain", "annotated", "grandchild")
+_SUBCLASSES: Dict[Any, type] = {}
+
+
+def _gate_cls(cls, variant):
+    """The class the gate object is built from: the vanilla class itself, or (variant) a subclass of it, as a front-end
+    built on netqasm would derive one: 'plain' adds nothing, 'annotated' is a dataclass with one more (defaulted) field,
+    'grandchild' derives from the annotated one.  An instance of any of them *is* a vanilla gate (isinstance)."""
+    if not variant:
+        return cls
+    if variant not in SUBCLASS_VARIANTS:
+        raise HarnessError(f"unknown subclass variant {variant}")
+    key = (cls, variant)
+    if key not in _SUBCLASSES:
+        import dataclasses
+
+        if variant == "plain":
+            sub = type("Derived" + cls.__name__, (cls,), {"__module__": __name__})
+        elif variant == "annotated":
+            sub = dataclasses.make_dataclass("Annotated" + cls.__name__, [("note", str, dataclasses.field(default="app.py:12"))], bases=(cls,))
+        else:
+            sub = type("Grandchild" + cls.__name__, (_gate_cls(cls, "annotated"),), {"__module__": __name__})
+        _SUBCLASSES[key] = sub
+    return _SUBCLASSES[key]
 
 
 def sequence_unitary(instrs, nq: int, init_regs=None) -> np.ndarray:
@@ -88,6 +124,39 @@ def _Q(i):
 
 def check_case(case) -> None:
     try:
+        _check_case_once(case)
+    except Failure as f:
+        if case.get("subclass"):
+            raise Failure(f.signature + ":subclass-instance", case, f"(gate object is an instance of a '{case['subclass']}' subclass of the vanilla class) " + f.message)
+        raise
+    if case.get("repeat"):
+        # the caller edits what it was handed (the emitted list and the emitted instruction objects), then transpiles an
+        # equal, freshly built input again: the second answer must be the first one
+        edited = _vandalise_output()
+        try:
+            _check_case_once(case)
+        except Failure as f:
+            raise Failure(f.signature + ":repeat-after-output-edit", case, f"(second transpilation of an equal input, after the caller edited the {edited} instruction objects of the first result in place) " + f.message)
+
+
+def _vandalise_output() -> int:
+    from netqasm.lang.operand import Immediate, Register
+
+    k = 0
+    for out in _LAST_OUT:
+        for ins in list(out):
+            for name, v in list(vars(ins).items()):
+                if isinstance(v, Immediate):
+                    setattr(ins, name, Immediate(77))
+                elif isinstance(v, Register):
+                    setattr(ins, name, _Q(9))
+            k += 1
+        del out[:]
+    return k
+
+
+def _check_case_once(case) -> None:
+    try:
         _check_case(case)
     except Failure as f:
         if f.case is not case and isinstance(f.case, dict) and "gate" not in f.case:
@@ -102,17 +171,19 @@ def _check_case(case) -> None:
 
     g = case["gate"]
     mode = case.get("mode", "sim")
+    sub = case.get("subclass")
     set_is_using_hardware(mode == "hw")
     try:
         if g in qm.NAMED:
             cls = {"x": vanilla.GateXInstruction, "y": vanilla.GateYInstruction, "z": vanilla.GateZInstruction, "h": vanilla.GateHInstruction,
                    "k": vanilla.GateKInstruction, "s": vanilla.GateSInstruction, "t": vanilla.GateTInstruction}[g]
+            cls = _gate_cls(cls, sub)
             q = case["id"]
             out = transpile([_set(_Q(0), q), cls(reg=_Q(0))])
             U = sequence_unitary(out, 2)
             want = qm.embed(qm.NAMED[g], [q], 2)
         elif g in ("rot_x", "rot_y", "rot_z"):
-            cls = {"rot_x": vanilla.RotXInstruction, "rot_y": vanilla.RotYInstruction, "rot_z": vanilla.RotZInstruction}[g]
+            cls = _gate_cls({"rot_x": vanilla.RotXInstruction, "rot_y": vanilla.RotYInstruction, "rot_z": vanilla.RotZInstruction}[g], sub)
             q = case["id"]
             out = transpile([_set(_Q(0), q), cls(reg=_Q(0), imm0=Immediate(case["n"]), imm1=Immediate(case["d"]))])
             for ins in out:
@@ -122,14 +193,14 @@ def _check_case(case) -> None:
             U = sequence_unitary(out, 2)
             want = qm.embed(qm.rot(g[-1], qm.angle(case["n"], case["d"])), [q], 2)
         elif g in ("cnot", "cphase"):
-            cls = {"cnot": vanilla.CnotInstruction, "cphase": vanilla.CphaseInstruction}[g]
+            cls = _gate_cls({"cnot": vanilla.CnotInstruction, "cphase": vanilla.CphaseInstruction}[g], sub)
             a, b = case["ids"]
             out = transpile([_set(_Q(0), a), _set(_Q(1), b), cls(reg0=_Q(0), reg1=_Q(1))], debug=bool(case.get("debug")))
             U = sequence_unitary(out, 4)
             want = qm.embed(qm.CNOT if g == "cnot" else qm.CZ, [a, b], 4)
         elif g == "mov":
             a, b = case["ids"]
-            out = transpile([_set(_Q(0), a), _set(_Q(1), b), vanilla.MovInstruction(reg0=_Q(0), reg1=_Q(1))])
+            out = transpile([_set(_Q(0), a), _set(_Q(1), b), _gate_cls(vanilla.MovInstruction, sub)(reg0=_Q(0), reg1=_Q(1))])
             U = sequence_unitary(out, 4)
             _check_mov(U, a, b, 4, case)
             return
@@ -272,7 +343,7 @@ def _check_matrix(case) -> None:
             raise Failure(sig + ":target_only", case, f"{cls.__name__}.to_matrix_target_only() for {ins} is not the target operator of '{mn}'")
 
 
-# ------------------------------------------------------------------ enumeration
+# ------------------------------------------------------------------ enumeration (and the cases derived from it)
 
 
 def fixed_cases() -> List[Dict[str, Any]]:
@@ -302,6 +373,221 @@ def rot_cases_all():
                 yield {"gate": "rot_" + ax, "id": (n + d) % 2, "n": n, "d": d, "mode": "sim"}
 
 
+def subclass_cases() -> List[Dict[str, Any]]:
+    """every gate kind and placement once more with the gate object an instance of a subclass of the vanilla class"""
+    cases = []
+    for v in SUBCLASS_VARIANTS:
+        for g in qm.NAMED:
+            for q in (0, 1):
+                cases.append({"gate": g, "id": q, "mode": "sim", "subclass": v})
+            cases.append({"gate": g, "id": 1, "mode": "hw", "subclass": v})
+        for g in ("cnot", "cphase"):
+            for a, b in itertools.permutations(range(4), 2):
+                cases.append({"gate": g, "ids": [a, b], "subclass": v})
+            cases.append({"gate": g, "ids": [2, 1], "debug": True, "subclass": v})
+        for k in (1, 2, 3):
+            cases.append({"gate": "mov", "ids": [0, k], "subclass": v})
+            cases.append({"gate": "mov", "ids": [k, 0], "subclass": v})
+        for ax in "xyz":
+            for n, d in [(1, 0), (3, 2), (24, 4), (77, 3), (255, 4)]:
+                cases.append({"gate": "rot_" + ax, "id": (n + d) % 2, "n": n, "d": d, "mode": "hw", "subclass": v})
+            for n, d in [(1, 0), (3, 2), (24, 4), (32, 5), (255, 255), (200, 9)]:
+                cases.append({"gate": "rot_" + ax, "id": (n + d) % 2, "n": n, "d": d, "mode": "sim", "subclass": v})
+    return cases
+
+
+def repeat_cases() -> List[Dict[str, Any]]:
+    """the emitted instructions edited in place by the caller, then an equal input transpiled again"""
+    cases = []
+    for g in qm.NAMED:
+        for q in (0, 1):
+            cases.append({"gate": g, "id": q, "mode": "sim", "repeat": True})
+    for g in ("cnot", "cphase"):
+        for a, b in itertools.permutations(range(3), 2):
+            cases.append({"gate": g, "ids": [a, b], "repeat": True})
+    for k in (1, 2):
+        cases.append({"gate": "mov", "ids": [0, k], "repeat": True})
+        cases.append({"gate": "mov", "ids": [k, 0], "repeat": True})
+    for ax in "xyz":
+        cases.append({"gate": "rot_" + ax, "id": 1, "n": 5, "d": 3, "mode": "sim", "repeat": True})
+        cases.append({"gate": "rot_" + ax, "id": 0, "n": 5, "d": 3, "mode": "hw", "repeat": True})
+    return cases
+
+
+# ------------------------------------------------------------------ published matrices edited in place by the caller
+
+EDITS = ("negate", "zero", "phase", "entry", "scale", "identity", "transpose", "normalise")
+
+
+def _apply_edit(M: np.ndarray, kind: str) -> None:
+    """what a consumer may do to an array it was handed (all in place, never allocating a new array)"""
+    if kind == "negate":
+        M *= -1
+    elif kind == "zero":
+        M[...] = 0
+    elif kind == "phase":
+        if np.iscomplexobj(M):
+            M *= 1j
+        else:
+            M *= -1
+    elif kind == "entry":
+        M[0, -1] = 3
+    elif kind == "scale":
+        M *= 2
+    elif kind == "identity":
+        M[...] = np.eye(M.shape[0], dtype=M.dtype)
+    elif kind == "transpose":
+        M[...] = M.T.copy()
+    elif kind == "normalise":
+        # make the first non-zero entry real and positive (global-phase normalisation)
+        first = M.flat[np.flatnonzero(np.abs(M) > 1e-12)[0]]
+        if np.iscomplexobj(M):
+            M /= first / abs(first)
+        elif first < 0:
+            M *= -1
+    else:
+        raise HarnessError(kind)
+
+
+_PACKAGE_ARRAYS: List[Any] = []
+
+
+def _package_arrays():
+    """(array object, pristine copy) for every numpy array held at module level (directly or in a list/tuple/dict) by the
+    modules the published matrices come from; taken once, before this check edits anything"""
+    if not _PACKAGE_ARRAYS:
+        import sys
+
+        seen = set()
+        for modname in ("netqasm.util.quantum_gates", "netqasm.lang.instr.core", "netqasm.lang.instr.vanilla", "netqasm.lang.instr.nv"):
+            mod = sys.modules.get(modname)
+            if mod is None:
+                continue
+            for v in list(vars(mod).values()):
+                vs = list(v.values()) if isinstance(v, dict) else list(v) if isinstance(v, (list, tuple)) else [v]
+                for a in vs:
+                    if isinstance(a, np.ndarray) and id(a) not in seen:
+                        seen.add(id(a))
+                        _PACKAGE_ARRAYS.append((a, a.copy()))
+        _PACKAGE_ARRAYS.append((None, None))
+    return [(a, c) for a, c in _PACKAGE_ARRAYS if a is not None]
+
+
+def _restore_package_arrays() -> int:
+    """isolation between cases: a case that managed to change an array inside the package must not decide later cases"""
+    k = 0
+    for a, c in _package_arrays():
+        if a.shape != c.shape or not np.array_equal(a, c):
+            try:
+                a.setflags(write=True)
+                a[...] = c
+            except Exception:
+                pass
+            k += 1
+    return k
+
+
+def _matrix_classes() -> List[List[str]]:
+    seen = []
+    for c in matrix_cases():
+        k = [c["module"], c["cls"]]
+        if k not in seen:
+            seen.append(k)
+    return sorted(seen)
+
+
+def _published(modname, clsname, n, d):
+    """(instruction, reference full operator or None for mov, reference target operator or None)"""
+    from netqasm.lang.instr import core, nv, vanilla
+    from netqasm.lang.operand import Immediate
+
+    cls = getattr({"vanilla": vanilla, "nv": nv}[modname], clsname)
+    mn = cls.mnemonic
+    if issubclass(cls, core.RotationInstruction):
+        return cls(reg=_Q(0), imm0=Immediate(n), imm1=Immediate(d)), qm.rot(mn[-1], qm.angle(n, d)), None
+    if issubclass(cls, core.ControlledRotationInstruction):
+        return cls(reg0=_Q(0), reg1=_Q(1), imm0=Immediate(n), imm1=Immediate(d)), qm.crot(mn[-1], qm.angle(n, d)), qm.rot(mn[-1], qm.angle(n, d))
+    if issubclass(cls, core.TwoQubitInstruction):
+        if mn == "mov":
+            return cls(reg0=_Q(0), reg1=_Q(1)), None, None
+        return cls(reg0=_Q(0), reg1=_Q(1)), {"cnot": qm.CNOT, "cphase": qm.CZ}[mn], {"cnot": qm.X, "cphase": qm.Z}[mn]
+    if mn not in qm.NAMED:
+        raise HarnessError(f"no reference operator for mnemonic {mn}")
+    return cls(reg=_Q(0)), qm.NAMED[mn], None
+
+
+def _query(ins, want, tgt, which, case, history):
+    """ask the instruction for its matrix, compare with the reference, hand the very object back"""
+    mn = ins.mnemonic
+    modname = type(ins).__module__.rsplit(".", 1)[-1]
+    if which == "target" and tgt is not None and hasattr(ins, "to_matrix_target_only"):
+        raw, ref, meth = ins.to_matrix_target_only(), tgt, "to_matrix_target_only"
+    else:
+        raw, ref, meth = ins.to_matrix(), want, "to_matrix"
+    M = np.array(raw, dtype=complex)  # a copy: the comparison never touches what the package returned
+    if ref is None:
+        try:
+            _check_mov(M, 0, 1, 2, case)
+            ok = True
+        except Failure:
+            ok = False
+    else:
+        ok = M.shape == ref.shape and qm.equal_up_to_phase(M, ref, TOL)
+    if not ok:
+        if history:
+            raise Failure("matrix:changed-after-caller-edit", case, f"{type(ins).__name__}.{meth}() for {ins} ({modname}) is no longer the operator of '{mn}' after a caller edited arrays it had been handed earlier in place ({'; '.join(history)}): got {np.round(M, 3).tolist()}")
+        raise Failure(f"matrix:{modname}:{mn}", case, f"{type(ins).__name__}.{meth}() for {ins} is not the operator of '{mn}'")
+    return raw, meth
+
+
+def check_matrix_edits(case) -> None:
+    """Published matrices stay the operators of their mnemonics whatever a caller does with an array it was handed:
+    query, compare, edit the returned array in place, query again (same instruction object, an equal new one, other
+    classes); at the end every class is asked once more."""
+    _restore_package_arrays()
+    try:
+        history: List[str] = []
+        made: List[Any] = []
+        for i, stp in enumerate(case["steps"]):
+            if stp.get("reuse") is not None and made:
+                ins, want, tgt = made[stp["reuse"] % len(made)]
+            else:
+                ins, want, tgt = _published(stp["module"], stp["cls"], stp["n"], stp["d"])
+            made.append((ins, want, tgt))
+            raw, meth = _query(ins, want, tgt, stp["which"], case, history)
+            if isinstance(raw, np.ndarray) and raw.flags.writeable:
+                try:
+                    _apply_edit(raw, stp["edit"])
+                    history.append(f"{stp['edit']} on {type(ins).__module__.rsplit('.', 1)[-1]}.{type(ins).__name__}.{meth}()")
+                except (TypeError, ValueError):
+                    pass  # numpy refused the edit for this dtype (e.g. true division of an integer array)
+            # the same object asked again straight away
+            _query(ins, want, tgt, stp["which"], case, history)
+        n, d = case["sweep"]
+        for modname, clsname in _matrix_classes():
+            ins, want, tgt = _published(modname, clsname, n, d)
+            _query(ins, want, tgt, "full", case, history)
+            _query(ins, want, tgt, "target", case, history)
+        return len(history)
+    finally:
+        _restore_package_arrays()
+
+
+@st.composite
+def st_matrix_edits(draw):
+    classes = _matrix_classes()
+    steps = []
+    for i in range(draw(st.integers(1, 5))):
+        m, c = draw(st.sampled_from(classes))
+        steps.append({
+            "module": m, "cls": c,
+            "n": draw(st.integers(0, 255)), "d": draw(st.one_of(st.integers(0, 6), st.integers(0, 255))),
+            "edit": draw(st.sampled_from(EDITS)), "which": draw(st.sampled_from(["full", "full", "target"])),
+            "reuse": draw(st.one_of(st.none(), st.integers(0, 4))) if i else None,
+        })
+    return {"gate": "matrix-edits", "steps": steps, "sweep": [draw(st.integers(1, 31)), draw(st.integers(1, 5))]}
+
+
 def shard(ctx: Ctx) -> None:
     stt = ctx.stats
 
@@ -318,6 +604,14 @@ def shard(ctx: Ctx) -> None:
         for c in mc:
             run(c, "matrix")
         stt.exhaustive_domains["published matrices of all vanilla/nv instruction classes"] = len(mc)
+        sc = subclass_cases()
+        for c in sc:
+            run(c, "enum-subclass-instance")
+        stt.exhaustive_domains["gate object an instance of a subclass (3 kinds) of the vanilla class: named gates x placement, cnot/cphase all ordered id pairs, mov, rotations"] = len(sc)
+        rc = repeat_cases()
+        for c in rc:
+            run(c, "enum-repeat-after-output-edit")
+        stt.exhaustive_domains["emitted instructions edited in place by the caller, equal input transpiled again"] = len(rc)
     if ctx.thorough():
         k = 0
         for i, c in enumerate(rot_cases_all()):
@@ -343,10 +637,16 @@ def shard(ctx: Ctx) -> None:
 
     def body_seq(case):
         cc = sum(1 for g_ in case["gates"] if g_[0] in ("cnot", "cphase") and 0 not in g_[1])
-        stt.case(case, True, ["sequence", f"carbon-carbon:{min(cc, 3)}"], sample=case if cc >= 2 and len(stt.samples) < 5 else None)
+        stt.case(case, True, ["sequence", f"carbon-carbon:{min(cc, 3)}"] + (["sequence:subclass-instances"] if any(case.get("subclass") or ()) else []), sample=case if cc >= 2 and len(stt.samples) < 5 else None)
         check_sequence(case)
 
     ctx.search(st_sequence(), body_seq, 1500 if ctx.tier == "quick" else 4000, name="c07-seq", salt=2)
+
+    def body_edits(case):
+        applied = check_matrix_edits(case)
+        stt.case(case, applied > 0, ["matrix-edits", f"edits-applied:{min(applied, 3)}"] + sorted({"edit:" + s_["edit"] for s_ in case["steps"]}) + (["matrix-edits:same-instruction-object-reused"] if any(s_.get("reuse") is not None for s_ in case["steps"]) else []), sample=case if len(stt.samples) < 6 and applied >= 2 else None)
+
+    ctx.search(st_matrix_edits(), body_edits, 400 if ctx.tier == "quick" else 2000, name="c07-matrix-edits", salt=3)
 
 
 @st.composite
@@ -367,7 +667,11 @@ def st_sequence(draw):
             gates.append([draw(st.sampled_from(sorted(qm.NAMED))), [draw(st.integers(0, nq - 1))], [draw(st.sampled_from(regs))]])
         else:
             gates.append(["rot_" + draw(st.sampled_from("xyz")), [draw(st.integers(0, nq - 1))], [draw(st.sampled_from(regs))], draw(st.integers(0, 31)), draw(st.integers(0, 4))])
-    return {"gate": "sequence", "nq": nq, "gates": gates, "persist": draw(st.booleans()), "debug": draw(st.integers(0, 3)) == 0}
+    case = {"gate": "sequence", "nq": nq, "gates": gates, "persist": draw(st.booleans()), "debug": draw(st.integers(0, 3)) == 0}
+    # some or all gate objects are instances of subclasses of the vanilla classes (None = the vanilla class itself)
+    if draw(st.integers(0, 2)) == 0:
+        case["subclass"] = [draw(st.sampled_from((None,) + SUBCLASS_VARIANTS)) for _ in gates]
+    return case
 
 
 def check_sequence(case) -> None:
@@ -380,7 +684,9 @@ def check_sequence(case) -> None:
     cls1 = {"x": vanilla.GateXInstruction, "y": vanilla.GateYInstruction, "z": vanilla.GateZInstruction, "h": vanilla.GateHInstruction,
             "k": vanilla.GateKInstruction, "s": vanilla.GateSInstruction, "t": vanilla.GateTInstruction}
     holds: Dict[int, int] = {}
-    for gte in case["gates"]:
+    subs = case.get("subclass") or [None] * len(case["gates"])
+    tag = ":subclass-instance" if any(subs) else ""
+    for gte, sub in zip(case["gates"], subs):
         name, ids, regs = gte[0], gte[1], gte[2]
         for r, q in zip(regs, ids):
             # SDK idiom sets the register before every gate; with "persist" a register that already holds the id is reused
@@ -388,27 +694,33 @@ def check_sequence(case) -> None:
                 instrs.append(_set(_Q(r), q))
             holds[r] = q
         if name in ("cnot", "cphase"):
-            instrs.append((vanilla.CnotInstruction if name == "cnot" else vanilla.CphaseInstruction)(reg0=_Q(regs[0]), reg1=_Q(regs[1])))
+            instrs.append(_gate_cls(vanilla.CnotInstruction if name == "cnot" else vanilla.CphaseInstruction, sub)(reg0=_Q(regs[0]), reg1=_Q(regs[1])))
             want = qm.embed(qm.CNOT if name == "cnot" else qm.CZ, ids, nq) @ want
         elif name.startswith("rot_"):
-            c = {"rot_x": vanilla.RotXInstruction, "rot_y": vanilla.RotYInstruction, "rot_z": vanilla.RotZInstruction}[name]
+            c = _gate_cls({"rot_x": vanilla.RotXInstruction, "rot_y": vanilla.RotYInstruction, "rot_z": vanilla.RotZInstruction}[name], sub)
             instrs.append(c(reg=_Q(regs[0]), imm0=Immediate(gte[3]), imm1=Immediate(gte[4])))
             want = qm.embed(qm.rot(name[-1], qm.angle(gte[3], gte[4])), ids, nq) @ want
         else:
-            instrs.append(cls1[name](reg=_Q(regs[0])))
+            instrs.append(_gate_cls(cls1[name], sub)(reg=_Q(regs[0])))
             want = qm.embed(qm.NAMED[name], ids, nq) @ want
     out = transpile(instrs, debug=bool(case.get("debug")))
     try:
         U = sequence_unitary(out, nq)
     except Failure as f:
-        raise Failure(f.signature, case, f.message)
+        raise Failure(f.signature + tag, case, f.message)
     except KeyError as e:
-        raise Failure("sequence:undefined-register", case, f"the emitted sequence uses a Q register that was never set: {e}")
+        raise Failure("sequence:undefined-register" + tag, case, f"the emitted sequence uses a Q register that was never set: {e}")
     if not qm.equal_up_to_phase(U, want, 1e-8):
-        raise Failure("sequence:unitary", case, f"NV expansion of the gate sequence {case['gates']} differs from the vanilla circuit (distance {qm.phase_distance(U, want):.3g}); emitted: {[str(i) for i in out][:40]}")
+        raise Failure("sequence:unitary" + tag, case, f"NV expansion of the gate sequence {case['gates']} differs from the vanilla circuit (distance {qm.phase_distance(U, want):.3g}); emitted: {[str(i) for i in out][:40]}")
 
 
 def replay(case):
+    if case.get("gate") == "matrix-edits":
+        try:
+            check_matrix_edits(case)
+        except Failure as f:
+            return f
+        return None
     if case.get("gate") == "sequence":
         try:
             check_sequence(case)
